@@ -26,6 +26,7 @@ def pairs(impl, subset):
         out += [('ProgramRead', '@tf_pread', '@ts_pread', [impl, a32], [z3.ULT(a32, 0x40000)]), ('ProgramWrite', '@tf_pwrite', '@ti_pwrite', [impl, a32, v], [z3.ULT(a32, 0x40000)]),
                 ('DataRead', '@tf_dread', '@ti_dread', [impl, a16, byp], [z3.ULT(a16, 0x8000)]), ('DataWrite', '@tf_dwrite', '@ti_dwrite', [impl, a16, v, byp], [z3.ULT(a16, 0x8000)]),
                 ('DataReadA32', '@tf_dreada32', '@ts_dreada32', [impl, a32], []), ('DataWriteA32', '@tf_dwritea32', '@ts_dwritea32', [impl, a32, v], []),
+                ('DataReadA32 (second bank)', '@tf_dreada32', '@ts_dreada32', [impl, a32], [z3.UGE(a32, 0x10000), z3.ULT(a32, 0x18000)]), ('DataWriteA32 (second bank)', '@tf_dwritea32', '@ts_dwritea32', [impl, a32, v], [z3.UGE(a32, 0x10000), z3.ULT(a32, 0x18000)]),
                 ('GetDspMemory', '@tf_getdspmemory', '@ts_getdspmemory', [impl], []), ('GetRegisterState', '@tf_getregs', '@ti_regs', [impl], [])]
         for a in (0x80C0, 0x80CC, 0x8020, 0x8200, 0x811E):
             out += [('DataRead(%#06x, MMIO)' % a, '@tf_dread', '@ti_dread', [impl, a, False], []), ('DataWrite(%#06x, MMIO)' % a, '@tf_dwrite', '@ti_dwrite', [impl, a, v, False], [])]
